@@ -808,3 +808,134 @@ func ruleDispRematch(w *World, r *Report) {
 		r.violation("DISP-REMATCH", "fn="+fname(lf), w.Pos(lf.Pos()), "cannot find where the linear scan collects rules (shape changed)")
 	}
 }
+
+// SET-IF-ABSENT (C04): "if the key is absent, set it" tests and sets the same key.
+func ruleSetIfAbsent(w *World, r *Report) {
+	r.Rule("SET-IF-ABSENT", "contradiction rule: where core's event walk sets a constant key of a map on the `absent` edge of a comma-ok lookup in the same map, the lookup and the update name the same key (the built-in bindings event / location / ruleId are injected into the bindings exactly when they are missing)", 3)
+	for _, spec := range [][2]string{{"EvalRuleCondition", "Do"}} {
+		fn := w.Method("core", spec[0], spec[1])
+		n := 0
+		for _, b := range fn.Blocks {
+			if len(b.Instrs) == 0 {
+				continue
+			}
+			ifi, ok := b.Instrs[len(b.Instrs)-1].(*ssa.If)
+			if !ok {
+				continue
+			}
+			ct, ok := decodeIf(ifi)
+			if !ok {
+				continue
+			}
+			ex, ok := ct.V.(*ssa.Extract)
+			if !ok || ex.Index != 1 {
+				continue
+			}
+			lk, ok := ex.Tuple.(*ssa.Lookup)
+			if !ok || !lk.CommaOk {
+				continue
+			}
+			k1, ok := constKey(lk.Index)
+			if !ok {
+				continue
+			}
+			absent := b.Succs[1]
+			if ct.TrueWhen == "false" {
+				absent = b.Succs[0]
+			}
+			// updates of the same map in the absent arm (blocks dominated by it)
+			for _, bb := range fn.Blocks {
+				if !absent.Dominates(bb) || len(absent.Preds) != 1 {
+					continue
+				}
+				for _, in := range bb.Instrs {
+					mu, ok := in.(*ssa.MapUpdate)
+					if !ok || mu.Map != lk.X {
+						continue
+					}
+					k2, ok := constKey(mu.Key)
+					if !ok {
+						continue
+					}
+					n++
+					key := "fn=" + fname(fn) + " key=" + k1
+					if k1 == k2 {
+						r.ok("SET-IF-ABSENT", key, w.PosOf(in), "tests and sets "+k1)
+					} else {
+						r.violation("SET-IF-ABSENT", key, w.PosOf(in), "the code tests for key "+k1+" but sets key "+k2+" when it is absent")
+					}
+				}
+			}
+		}
+		if n == 0 {
+			r.violation("SET-IF-ABSENT", "fn="+fname(fn), w.Pos(fn.Pos()), "no set-if-absent injection found (shape changed)")
+		}
+	}
+}
+
+// TIMEOUT-UNSET (C14): only an unset (zero) location timeout is replaced by the system default.
+func ruleTimeoutUnset(w *World, r *Report) {
+	r.Rule("TIMEOUT-UNSET", "in RunJavascript the system default replaces the location's JavaScript timeout only on the edge of an equality test with zero (unset); a negative value means `no timeout` (documented on Control.JavascriptTimeout and tested as `0 <= timeout` before the watchdog is armed) and must survive", 1)
+	fn := w.Func("core", "RunJavascript")
+	// the value that reads SystemParameters.DefaultJavascriptTimeout
+	isDefault := func(v ssa.Value) bool {
+		n, f, _, ok := loadedField(v)
+		return ok && n.Obj().Name() == "SystemParams" && f == "DefaultJavascriptTimeout" || ok && f == "DefaultJavascriptTimeout"
+	}
+	found := 0
+	bad := ""
+	allInstrs(fn, func(in ssa.Instruction) {
+		var preds []*ssa.BasicBlock
+		switch x := in.(type) {
+		case *ssa.Phi:
+			for i, e := range x.Edges {
+				if isDefault(e) {
+					preds = append(preds, x.Block().Preds[i])
+				}
+			}
+		case *ssa.Store:
+			// the variable lives in a slot when closures capture it
+			if _, isAlloc := x.Addr.(*ssa.Alloc); isAlloc && isDefault(x.Val) {
+				preds = append(preds, x.Block())
+			}
+		}
+		for _, pred := range preds {
+			found++
+			// the branch that selects this assignment: the closest dominating If (the block itself is the arm)
+			start := pred
+			if len(pred.Preds) == 1 {
+				start = pred.Preds[0]
+			}
+			for q := start; q != nil; q = q.Idom() {
+				if len(q.Instrs) == 0 {
+					continue
+				}
+				ifi, ok := q.Instrs[len(q.Instrs)-1].(*ssa.If)
+				if !ok {
+					continue
+				}
+				cmp, ok := ifi.Cond.(*ssa.BinOp)
+				if !ok {
+					break
+				}
+				isZero := func(v ssa.Value) bool {
+					c, ok := v.(*ssa.Const)
+					return ok && c.Value != nil && c.Int64() == 0
+				}
+				if cmp.Op != token.EQL || !(isZero(cmp.X) || isZero(cmp.Y)) {
+					bad = w.PosOf(ifi)
+				}
+				break
+			}
+		}
+	})
+	key := "fn=" + fname(fn)
+	switch {
+	case found == 0:
+		r.violation("TIMEOUT-UNSET", key, w.Pos(fn.Pos()), "cannot find where the system default timeout is selected (shape changed)")
+	case bad != "":
+		r.violation("TIMEOUT-UNSET", key, bad, "the default timeout is selected by a test other than `== 0`: a negative (disabled) location timeout is overridden")
+	default:
+		r.ok("TIMEOUT-UNSET", key, w.Pos(fn.Pos()), "default only for an unset timeout")
+	}
+}
